@@ -140,6 +140,8 @@ func runC01(c *Ctx) {
 	smudgeToFileRule(c, "R11")
 	// shared rule: the temp-dir sweep spares files a concurrent process is still writing (rules_round4.go)
 	tempCleanupAgeRule(c, "R12")
+	lfsStorageUnderCommonDir(c, "R13")
+	filterStatusReportsCommandError(c, "R14")
 	ctt := p.Fn("lfs", "(*GitFilter).copyToTemp")
 	cleanF := p.Fn("lfs", "(*GitFilter).Clean")
 	clean := p.Fn("commands", "clean")
